@@ -587,9 +587,9 @@ func execC09Agg(f []string) Result {
 		return res
 	}
 	if op.fn == "count" && len(op.fields) == 0 && !op.without && dup {
-		// `count(m)` always selects the full label sets, which are distinct per series: not reachable
-		res.Tags = append(res.Tags, "count-nofields-duplicates-not-judged")
-		return res
+		// several series under one id (the ids carry only the labels of the query's filters; "*" for a regex on the metric
+		// name): judged since patch c09-26 (they used to be counted once)
+		res.Tags = append(res.Tags, "count-nofields-duplicates")
 	}
 	exp := c09Expected(op)
 	multi := false
@@ -661,7 +661,7 @@ func execC09Agg(f []string) Result {
 		return res
 	}
 	// (b) avg = sum / count and min ≤ avg ≤ max, on the same data through the same code
-	if op.fn == "avg" && !(dup && len(op.fields) == 0 && !op.without) {
+	if op.fn == "avg" {
 		sumR, e1 := c09Run(op, "sum", par)
 		cntR, e2 := c09Run(op, "count", par)
 		minR, e3 := c09Run(op, "min", par)
